@@ -257,6 +257,11 @@ def cases_requests(tier):
             # the fixed variables moved between the function request and the gradient request (a nested optimization does that):
             # every row of the gradient request carries the fixed values of THAT request
             yield "N%d/mask=%s/boundary=%d/gradients-after-functions-at-other-fixed-values" % (N, m, bt), {"N": N, "mask": m, "bt": bt, "both": False, "moved": True}
+            # ... and the same evaluator has already computed a gradient at other fixed values (an earlier outer iteration of a nested
+            # optimization): the rows of THIS request carry the fixed values of this request
+            for both in (True, False):
+                yield "N%d/mask=%s/boundary=%d/%s/after-an-earlier-gradient-at-other-fixed-values" % (N, m, bt, "functions+gradients" if both else "gradients-after-functions"), {
+                    "N": N, "mask": m, "bt": bt, "both": both, "earlier": True}
 
 
 def scn_requests(T, case):
@@ -276,6 +281,13 @@ def scn_requests(T, case):
     vals = T.real("values", (R * (P + 1),))
     sev = H.ScriptedEvaluator(T, ch, lambda v, r, p, k: T.np.array([vals[k % (R * (P + 1))]]))
     ev = H.make_evaluator(T, ch, cfg, sev, samplers=[H.FakeSampler(samples)])
+    if case.get("earlier"):
+        other0 = T.real("fixed_values_of_the_earlier_request", (N,), ge=lb, le=ub)
+        T.assume(T.any([(other0[i] - x[i] > 0.5) | (x[i] - other0[i] > 0.5) for i in range(N) if not mask[i]]))
+        x_earlier = T.np.array([x[i] if mask[i] else other0[i] for i in range(N)])
+        ev.calculate(x_earlier, compute_functions=True, compute_gradients=True)
+        ev.calculate(x_earlier, compute_functions=False, compute_gradients=True)
+        del sev.calls[:]
     if case["both"]:
         res = ev.calculate(x, compute_functions=True, compute_gradients=True)
     else:
@@ -479,6 +491,19 @@ def scn_user_results(T, case):
     backtransform.scenario(T, case, "C09")
 
 
+# ------------------------------------------------------------------------------------ what the plan steps hand on (shared contract)
+def cases_steps(tier):
+    from contracts import stepcontract
+
+    return stepcontract.cases(tier)
+
+
+def scn_steps(T, case):
+    from contracts import stepcontract
+
+    stepcontract.scenario(T, case, "C09")
+
+
 SCENARIOS = [
     Scenario("magnitudes_of_fixed_variables_are_finite", _scn_fix, cases_fix_fixed, {"quick": 5, "thorough": 30}),
     Scenario("get_mask_init_samplers", scn_get_mask, cases_get_mask, {"quick": 1, "thorough": 1}),
@@ -490,6 +515,7 @@ SCENARIOS = [
     Scenario("mask_is_canonical", scn_mask_canonical, cases_mask_canonical, {"quick": 1, "thorough": 1}),
     Scenario("optimizer_step_default_start", scn_step_start, cases_step_start, {"quick": 2, "thorough": 5}),
     Scenario("user_domain_results", scn_user_results, cases_user_results, {"quick": 3, "thorough": 20}),
+    Scenario("plan_steps_hand_over", scn_steps, cases_steps, {"quick": 1, "thorough": 2}),
 ]
 
 MANIFEST = {
